@@ -45,37 +45,57 @@ fn bytes_drop_noop(_b: &mut bytes::Bytes) {}
 /// Recorder standing in for the private `JournaledState::journal_revert(state, transient, entries, is_spurious_dragon)`.
 /// It touches neither the state nor the transient storage and keeps, per call and in call order: the number of entries,
 /// the flag, WHICH level's buffer it was handed (the driver moves each level out with `mem::take`, so the buffer address
-/// identifies the level; the harness registers the addresses in LEVEL_PTR before the revert) and the tags of the entries
+/// identifies the level; the harness registers the addresses in `level_ptr` before the revert) and the tags of the entries
 /// found there at the moment of the call.  The entries are read through the harness's own registered pointer (an object
-/// symbolic execution knows), not through the Vec the driver passes (its data pointer was loaded from `journal` at an
-/// offset symbolic execution cannot resolve: the loop runs `take(n)` with `n` read back from memory).
+/// symbolic execution knows), not through the Vec the driver passes.
+///
+/// ONE static of a distinctive shape, starting with a magic word, on purpose: with separate `static mut X: usize = 0`
+/// items kani-compiler 0.68 resolved an anonymous CONSTANT of std (the zero capacity in `alloc::raw_vec::new_cap`) to the
+/// harness's mutable counter -- every `Vec::new()` then had capacity "number of calls so far" and `journal.truncate` freed
+/// a dangling pointer.  Which global the constant was resolved to depended on the build directory (seen by diffing the
+/// goto programs of two builds of the same source: one read `kjournal::global::33`, the other `c06::REC_N`).
 const MAX_CALLS: usize = 5;
 const NO_LEVEL: usize = usize::MAX;
-static mut LEVEL_PTR: [*const JournalEntry; ML] = [core::ptr::null(); ML];
-static mut LEVEL_LEN: [usize; ML] = [0; ML];
-static mut REC_LEN: [usize; MAX_CALLS] = [0; MAX_CALLS];
-static mut REC_LEVEL: [usize; MAX_CALLS] = [NO_LEVEL; MAX_CALLS];
-static mut REC_TAGS: [[(u8, u64); ME]; MAX_CALLS] = [[(0, 0); ME]; MAX_CALLS];
-static mut REC_SD: [bool; MAX_CALLS] = [false; MAX_CALLS];
-static mut REC_N: usize = 0;
+const MAGIC: u64 = 0x6b6a_6f75_726e_616c;
+struct Rec {
+    magic: u64,
+    n: usize,
+    len: [usize; MAX_CALLS],
+    level: [usize; MAX_CALLS],
+    tags: [[(u8, u64); ME]; MAX_CALLS],
+    sd: [bool; MAX_CALLS],
+    level_ptr: [*const JournalEntry; ML],
+    level_len: [usize; ML],
+}
+static mut R: Rec = Rec {
+    magic: MAGIC,
+    n: 0,
+    len: [0; MAX_CALLS],
+    level: [NO_LEVEL; MAX_CALLS],
+    tags: [[(0, 0); ME]; MAX_CALLS],
+    sd: [false; MAX_CALLS],
+    level_ptr: [core::ptr::null(); ML],
+    level_len: [0; ML],
+};
 fn recording_journal_revert(_state: &mut EvmState, _transient: &mut TransientStorage, entries: Vec<JournalEntry>, sd: bool) {
     unsafe {
-        assert!(REC_N < MAX_CALLS, "journal_revert called more often than there are levels");
-        REC_LEN[REC_N] = entries.len();
-        REC_SD[REC_N] = sd;
+        let c = R.n;
+        assert!(c < MAX_CALLS, "journal_revert called more often than there are levels");
+        R.len[c] = entries.len();
+        R.sd[c] = sd;
         if entries.len() != 0 {
             for l in 0..ML {
-                if LEVEL_LEN[l] != 0 && LEVEL_PTR[l] == entries.as_ptr() {
-                    REC_LEVEL[REC_N] = l;
+                if R.level_len[l] != 0 && R.level_ptr[l] == entries.as_ptr() {
+                    R.level[c] = l;
                     for e in 0..ME {
-                        if e < LEVEL_LEN[l] {
-                            REC_TAGS[REC_N][e] = entry_tag(&*LEVEL_PTR[l].add(e));
+                        if e < R.level_len[l] {
+                            R.tags[c][e] = entry_tag(&*R.level_ptr[l].add(e));
                         }
                     }
                 }
             }
         }
-        REC_N += 1;
+        R.n = c + 1;
     }
     core::mem::forget(entries);
 }
@@ -156,21 +176,19 @@ impl Shadow {
     }
 }
 
-/// `JournaledState::new(spec, {})` with `journal` and `logs` moved into buffers of capacity 6 that come from a `vec![..]`
-/// literal.  Same VALUE as `new` gives (one empty level, no logs); only the capacities differ.  Why: a `vec![..]` literal
-/// is a typed allocation whose contents symbolic execution tracks field by field, while a buffer grown by `Vec::push` is
-/// an untyped byte array: a level header (`Vec { cap, ptr, len }`) read back from it is not a constant, the first `push`
-/// on that level then allocates a buffer of SYMBOLIC size, and any read of an entry costs > 10 GB (measured: 4 lines,
-/// `checkpoint(); push; push; read` -- no verdict in 200 s; with this constructor 14 s).
+/// `JournaledState::new(spec, {})` with `journal` and `logs` moved into buffers pre-allocated for 6 elements.  Same VALUE
+/// as `new` gives (one empty level, no logs); only the capacities differ, so that no reallocation happens during the
+/// scenario.  Together with `--max-field-sensitivity-array-size 512` (cbmc argument in the registration) every cell of
+/// these buffers is a separate variable for symbolic execution.  Without it a level header (`Vec { cap, ptr, len }`)
+/// read back from the journal buffer is not a constant, the first `push` on that level then allocates a buffer of
+/// SYMBOLIC size, and any read of an entry costs > 10 GB (measured: `checkpoint(); push; push; read` -- no verdict in 200 s).
 fn new_journaled_state(spec: SpecId) -> JournaledState {
     let mut js = JournaledState::new(spec, HashSet::default());
     assert!(js.journal.len() == 1 && js.journal[0].is_empty() && js.logs.is_empty() && js.depth == 0);
-    let mut j: Vec<Vec<JournalEntry>> = vec![vec![], vec![], vec![], vec![], vec![], vec![]];
-    unsafe { j.set_len(1) }; // the five spare empty Vecs own nothing
+    let mut j: Vec<Vec<JournalEntry>> = Vec::with_capacity(6);
+    j.push(Vec::new());
     core::mem::forget(core::mem::replace(&mut js.journal, j));
-    let mut lg: Vec<Log> = vec![log_of(0), log_of(0), log_of(0), log_of(0), log_of(0), log_of(0)];
-    unsafe { lg.set_len(0) }; // the six placeholder logs own nothing (empty topics, static empty data)
-    core::mem::forget(core::mem::replace(&mut js.logs, lg));
+    core::mem::forget(core::mem::replace(&mut js.logs, Vec::with_capacity(6)));
     js
 }
 
@@ -236,8 +254,8 @@ fn driver_case(pre: &[usize], logs0: usize, own: usize, logs1: usize, inner: &[(
     for l in 0..levels_before {
         assert!(js.journal[l].len() == sh.lens[l]);
         unsafe {
-            LEVEL_PTR[l] = js.journal[l].as_ptr();
-            LEVEL_LEN[l] = sh.lens[l];
+            R.level_ptr[l] = js.journal[l].as_ptr();
+            R.level_len[l] = sh.lens[l];
         }
     }
 
@@ -263,15 +281,16 @@ fn driver_case(pre: &[usize], logs0: usize, own: usize, logs1: usize, inner: &[(
         assert!(addr_id(&js.logs[i].address) == sh.logs[i]);
     }
     // journal_revert: once per level above the checkpoint, last level first, that level's entries, the fork's EIP-161 flag
-    let calls = unsafe { REC_N };
+    let calls = unsafe { R.n };
+    assert!(unsafe { R.magic } == MAGIC);
     assert!(calls == levels_before - journal_i);
     for c in 0..(levels_before - journal_i) {
         let l = levels_before - 1 - c;
-        assert!(unsafe { REC_SD[c] } == eip161_active(spec));
-        assert!(unsafe { REC_LEN[c] } == sh.lens[l]);
-        assert!(unsafe { REC_LEVEL[c] } == if sh.lens[l] == 0 { NO_LEVEL } else { l });
+        assert!(unsafe { R.sd[c] } == eip161_active(spec));
+        assert!(unsafe { R.len[c] } == sh.lens[l]);
+        assert!(unsafe { R.level[c] } == if sh.lens[l] == 0 { NO_LEVEL } else { l });
         for e in 0..sh.lens[l] {
-            let t = unsafe { REC_TAGS[c][e] };
+            let t = unsafe { R.tags[c][e] };
             assert!(t.0 == sh.tags[l][e].0 && t.1 == sh.tags[l][e].1);
         }
     }
